@@ -389,8 +389,72 @@ def scenario(seed: int, features: Optional[Dict[str, Any]] = None, families=None
         kw["finite_diff_rel_step"] = r2.choice([None, 1e-2, 0.5])
     else:
         ie = False
+    # (c) user functions that work IN PLACE on the array they are handed (a simulator that shifts / rescales its argument, or
+    # writes it into the very buffer the caller passed as x0) and still return the right value: whatever the package hands to
+    # user code must be a private copy. (Drawn last, from the same separate stream.)
+    mu = feat.get("mutating_user")
+    if mu is None:
+        mu = r2.random() < 0.2
+    if mu and up == "none":
+        from harness import trace as _trace
+
+        def _scribble(x):
+            try:
+                if isinstance(x, np.ndarray) and x.dtype == np.float64 and x.flags.writeable:
+                    # the start array the package was handed in this run (a private copy made by the recorder, so that the
+                    # harness's own record of the start stays what it was)
+                    x0buf = getattr(_trace._tls, "x0_passed", None)
+                    if isinstance(x0buf, np.ndarray) and x0buf.dtype == np.float64 and x0buf.shape == x.shape and x0buf.flags.writeable:
+                        x0buf[:] = x
+                    x -= 0.75
+                    x *= 3.0
+            except (ValueError, TypeError):
+                pass
+        inner_f = kw["fun"]
+
+        def fun_mut(x, *a, _inner=inner_f):
+            v = _inner(x, *a)
+            _scribble(x)
+            return v
+        kw["fun"] = fun_mut
+        _trace.PRIVATE_X0[id(fun_mut)] = fun_mut
+        if callable(kw.get("jac")):
+            inner_g = kw["jac"]
+
+            def jac_mut(x, *a, _inner=inner_g):
+                gv = np.array(np.atleast_1d(_inner(x, *a)), dtype=float, copy=True) if not rb else _inner(x, *a)
+                _scribble(x)
+                return gv
+            kw["jac"] = jac_mut
+    else:
+        mu = False
+    # (d) an objective that itself runs another (small, bounded, finite-difference) optimisation at every call — a value function of a
+    # bilevel problem, a polishing step — and returns the right value: nothing a run needs may live outside the run
+    ni = bool(feat.get("nested_inner", False))
+    if ni and up == "none":
+        from harness import trace as _trace2
+        inner_f2 = kw["fun"]
+        other = "3-point" if mode == "2-point" else "2-point"
+
+        def fun_nested(x, *a, _inner=inner_f2):
+            saved = getattr(_trace2._tls, "rec", None)
+            _trace2._tls.rec = None          # the inner run is not part of the recorded run
+            try:
+                from lbfgsb import minimize_lbfgsb as _m
+                # (same dimension as the outer problem, a much wider box)
+                nn = int(np.size(x))
+                _m(x0=np.full(nn, 0.25), fun=lambda z: float(np.sum((z - 0.5) ** 2 * (1.0 + np.arange(z.size)))), jac=other,
+                   bounds=[(-50.0, 50.0)] * nn, maxiter=2, maxcor=2)
+            finally:
+                _trace2._tls.rec = saved
+            return _inner(x, *a)
+        kw["fun"] = fun_nested
+        if id(inner_f2) in _trace2.PRIVATE_X0:
+            _trace2.PRIVATE_X0[id(fun_nested)] = fun_nested
+    else:
+        ni = False
     desc = {"seed": seed, "problem": p.desc, "cfg": cfg,
             "features": {"jac": mode, "callback": cb, "ftarget": ft, "scaler": sc, "update": up,
-                         "grad_buffer": bool(rb), "irrelevant_eps": bool(ie),
+                         "grad_buffer": bool(rb), "irrelevant_eps": bool(ie), "mutating_user": bool(mu), "nested_inner": bool(ni),
                          **{k: v for k, v in feat.items() if isinstance(v, (int, float, str))}}}
     return kw, desc, p
